@@ -2709,8 +2709,13 @@ impl Run {
                 let truth = h.classify(&c.q.name, c.q.qtype);
                 let comp = if via == "connection" { "connection" } else { "validator" };
                 let what = if exp[0] == "Insecure" { "below-insecure-delegation" } else { "correctly-signed" };
+                let detail = if h.decoy {
+                    "zone-has-second-dnskey-with-same-algorithm-and-key-tag-listed-first".to_string()
+                } else {
+                    format!("denial={}|answer={}", if h.nsec3 { if h.opt_out { "nsec3-optout" } else { "nsec3" } } else { "nsec" }, truth.short())
+                };
                 self.ctx.violation(
-                    &format!("C14|{comp}|unmodified-{what}-reported-{got}|denial={}|answer={}", if h.nsec3 { if h.opt_out { "nsec3-optout" } else { "nsec3" } } else { "nsec" }, truth.short()),
+                    &format!("C14|{comp}|unmodified-{what}-reported-{got}|{detail}"),
                     &format!("unmodified authentic answer for {} {} in scenario {} reported {:?} (ede {}), expected {:?}", show(&c.q.name), tname(c.q.qtype), h.name, ex.verdict, ex.ede, exp),
                     replay(),
                 );
@@ -3008,8 +3013,10 @@ fn main() {
         for qq in &cname_queries {
             plan.push((hi, qq.clone(), 3, 0));
         }
-        for qq in &star_queries {
-            plan.push((hi, qq.clone(), if quick { 2 } else { 0 }, 0));
+        if !decoy {
+            for qq in &star_queries {
+                plan.push((hi, qq.clone(), if quick { 2 } else { 0 }, 0));
+            }
         }
         if run.hiers[hi].kind == Kind::Secure && !decoy {
             for (n, r) in ring.iter().enumerate() {
@@ -3103,7 +3110,7 @@ fn main() {
             "distinct_nontrivial": run.stats.distinct_count(),
             "rule": "one evaluation = one run of the real validator (validate_msg, or Connection for single faults) on a fresh ValidationContext with the oracle applied; non-trivial = a faulted case in which at least one message delivered to the validator (the validated answer or an upstream DS/DNSKEY response) differs in its octets from the authentic one; distinct by hash of (scenario, query, fault list)",
             "exhaustive": true,
-            "bound": if quick { "quick: scenarios S1,S2,S3,S3b x 17 queries: every single fault of the menu at every position (validate_msg and Connection); every second name of the NXDOMAIN ring x every NSEC/NSEC3 swap; all pairs of representative faults (one per kind and position) for 6 queries" } else { "thorough: 5 scenarios x 17 queries: every single fault at every position (validate_msg and Connection); full NXDOMAIN ring x every NSEC/NSEC3 swap; ALL pairs of single faults for all 17 queries of all 5 scenarios" },
+            "bound": if quick { "quick: scenarios S1,S2,S3,S3b x 17 queries: every single fault of the menu at every position (validate_msg and Connection); S6 (colliding key tag listed first) x 6 queries all single faults, 11 more baselines; CNAME owner x {NS,AAAA,MX,TXT} with the CNAME-to-NODATA replacement; direct wildcard-owner queries (baseline); every second name of the NXDOMAIN ring x every NSEC/NSEC3 swap; all pairs of representative faults (one per kind and position) for 6 queries; three context-reuse cases" } else { "thorough: 6 scenarios x 17 queries: every single fault at every position (validate_msg and Connection); CNAME-owner and wildcard-owner queries; full NXDOMAIN ring x every NSEC/NSEC3 swap; ALL pairs of single faults for all 17 queries of S1,S2,S3,S3b,S5 and pairs of representatives for S6; three context-reuse cases" },
             "scenarios": run.hiers.iter().take(nh).chain(run.hiers.iter().skip(sx)).map(|h| h.name).collect::<Vec<_>>(),
             "query_plans": plan.len(),
             "cases": cases.len() as u64 + n_pairs.load(AO::Relaxed),
